@@ -445,7 +445,7 @@ func c01Batch(c *core.Ctx, vals []core.Val) error {
 // the root) and a random plan.
 func buildVariant(v core.Val, r *core.Rand) (datamodel.Node, error) {
 	var nb datamodel.NodeBuilder
-	if r.Chance(1, 2) {
+	if r == nil || r.Chance(1, 2) {
 		nb = basicnode.Prototype.Any.NewBuilder()
 	} else {
 		p := kindToken(v)
